@@ -199,6 +199,9 @@ func (h *history) chainByKey(idKey, dist []byte) string {
 
 // namedOK is the property's predicate: may a request m be answered by chain x?
 func (h *history) namedOK(m *drand.Metadata, x string, viaGroupKey bool) bool {
+	if h.chains[x] == nil {
+		return false // answered with key material of no chain of this daemon
+	}
 	id, hash := m.GetBeaconID(), m.GetChainHash()
 	if id != "" && common.GetCanonicalBeaconID(id) != x {
 		return false
@@ -301,7 +304,8 @@ func (h *history) sweep(ctx context.Context, withRand bool) {
 			}
 		}
 		if withRand {
-			if r, err := h.dd.PublicRand(ctx, &drand.PublicRandRequest{Metadata: clone()}); err == nil {
+			// (round 0 is the genesis beacon: its "signature" is the genesis seed, nothing to verify)
+			if r, err := h.dd.PublicRand(ctx, &drand.PublicRandRequest{Metadata: clone()}); err == nil && r.GetRound() > 0 {
 				x := h.chainBySignature(r.GetRound(), r.GetSignature(), r.GetPreviousSignature())
 				answered["PublicRand"] = x
 				h.counts["rand/answered"]++
@@ -462,7 +466,7 @@ func (h *history) snapshot(ctx context.Context, withRand bool) {
 					Signature common.HexBytes `json:"signature"`
 					Previous  common.HexBytes `json:"previous_signature"`
 				}
-				if json.Unmarshal(b2, &r) == nil && len(r.Signature) > 0 {
+				if json.Unmarshal(b2, &r) == nil && len(r.Signature) > 0 && r.Round > 0 {
 					x := h.chainBySignature(r.Round, r.Signature, r.Previous)
 					h.counts["http/rand-verified"]++
 					want := "default"
@@ -488,6 +492,11 @@ func (h *history) snapshot(ctx context.Context, withRand bool) {
 		obs := "DUnknown"
 		if exists {
 			obs = "(DServe " + h.in.str(id) + ")"
+		}
+		if h.stopped {
+			// the whole daemon was stopped: the DKG store is closed, only the table is compared
+			h.add(fmt.Sprintf("RDkg %s (Some %s) %s", h.prefix(), h.in.str(id), obs), "dkg proxy id="+id)
+			continue
 		}
 		r, err := h.dd.DKGStatus(ctx, &pdkg.DKGStatusRequest{BeaconID: id})
 		if (err == nil) != exists {
@@ -713,6 +722,10 @@ func newHistory(ctx context.Context, idx int, seed int64) (*history, error) {
 	if err != nil {
 		return nil, err
 	}
+	// the multibeacon folder exists on a real node (created with the first key pair)
+	if err := os.MkdirAll(cfg.ConfigFolderMB(), 0o700); err != nil {
+		return nil, err
+	}
 	genesis := time.Now().Unix() + 2
 	schemes := []string{crypto.DefaultSchemeID, crypto.UnchainedSchemeID, crypto.ShortSigSchemeID}
 	h.ids = []string{"default", "alpha", "beta"}
@@ -794,7 +807,7 @@ func Run(outDir string, seed int64, tier string) error {
 	rep := emit.NewReport("routing", seed, tier)
 	nHist, nEvents := 8, 6
 	if tier == "thorough" {
-		nHist, nEvents = 60, 10
+		nHist, nEvents = 24, 10
 	}
 	var hs []*history
 	for i := 0; i < nHist; i++ {
